@@ -45,6 +45,7 @@ M(node, content) == [node |-> node, content |-> content]
 MarkersNone == {}
 MarkersPlain == {M("nowiki", ""), M("h", "c1"), M("h", "c2")}
 MarkersMore == MarkersPlain \cup {M("ref", "c1"), M("nowiki", "c1")}
+MarkersMoreR == MarkersMore \cup {M("h", "preprocess")}
 \* contents that coincide with the two counter keys of the as-built cache
 MarkersReserved == {M("nowiki", ""), M("h", "c1"), M("h", "preprocess"), M("h", "nowiki")}
 
